@@ -13,14 +13,19 @@ from .vlib import Check, cps, uncps
 
 PID = "C12"
 CLAIM = dict(
-    text="Coq theorems over the router model of C03 (shared transition-tree matcher, MapAdapter.match, make_redirect_url, "
-         "quote, urlunsplit) extended in coq/C12: every slash / merged-slash redirect the router issues is "
-         "scheme://bound-host/script-root/ + a relative path without '?' or '#' + the bound query string, for every request path "
-         "including '//host/...' forms (C12_on_host), and the theorems listed in the evidence about convergence. Tied to the code by the "
-         "regenerated constants and statement pins of coq/C03/Gen.v and by differential execution (extracted model vs werkzeug) on maps x "
-         "adapters (schemes, script roots, subdomains, query arguments) x paths; an impl-level oracle follows every redirect.",
-    note="Trusted: as C03; urllib.parse.urlunsplit/quote hand-modelled; encode_query_args of a mapping (werkzeug.urls._urlencode) is an "
-         "input of the model (the encoded string); redirect_to targets are outside the claim.",
+    text="Coq theorems (Qed, closed under the global context) over the router model of C03 extended with the URL builder of C04 "
+         "(get_default_redirect, make_alias_redirect_url, make_redirect_url, quote, urlunsplit): C12_on_host (every redirect MapAdapter.match "
+         "issues is scheme://bound-host/script-root/ + a relative path without '?' or '#' + the bound query string for slash / merged-slash "
+         "redirects - for every request path including '//host/...' forms - or the canonical URL the builder produced for a rule of the matched "
+         "endpoint, on [subdomain.]bound-server), C12_host_is_bound_server, C12_redirect_addresses_target, C12_converges_partial (the rule that "
+         "caused a slash / merged-slash redirect admits the target directly for the same method, so the follow-up is never NotFound / 405). "
+         "Tied to the code by the regenerated constants and statement pins of coq/C03/Gen.v and by differential execution (extracted model vs "
+         "werkzeug, defaults and alias redirects included) on maps x adapters (schemes, script roots, subdomains, query arguments) x paths; an "
+         "impl-level oracle follows every redirect to a match of the denoted endpoint and arguments within 3 hops.",
+    note="Trusted: as C03 and C04; urllib.parse.urlunsplit/quote hand-modelled; encode_query_args of a mapping (werkzeug.urls._urlencode) is an "
+         "input of the model (the encoded string); that the follow-up of a redirect is a match of the very rule in one hop is checked by the "
+         "harness only (C12_converges_partial); redirect_to targets, alias rules without a canonical rule and rules shadowing each other's "
+         "canonical URL are outside the claim.",
     design="6/C12")
 
 SCHEMES = ["http", "http", "http", "https", "https", "https", "ws", "wss"]
@@ -43,29 +48,35 @@ def gen_adapter(rng, ms: MapSpec) -> Adapter:
 
 
 def with_defaults(rng, ms: MapSpec) -> MapSpec:
-    """add the documented defaults idiom and/or an alias rule for one rule of the map."""
+    """add a group of rules for one fresh endpoint: a base rule, providers of defaults for it (the documented idiom,
+    possibly two of them) and/or an alias.  The group lives under first literals of its own, so that no rule of another
+    endpoint shadows a canonical URL (that, like an alias without a canonical rule, is a configuration error: outside the claim)."""
     rules = list(ms.rules)
-    base = [r for r in rules if r.segs and r.segs[-1].lit is None and r.segs[-1].conv.kind in "is" and not r.tail
-            and not r.segs[-1].pre and not r.segs[-1].post]
-    if not base:
-        b = RuleSpec(idx=len(rules), endpoint=len(rules), segs=(Seg(lit=rng.choice(["all", "a", "x"])), Seg(lit="page"),
-                                                              Seg(conv=Conv("i"), name="page")), branch=rng.random() < 0.3)
-        rules.append(b)
-    else:
-        b = rng.choice(base)
-    v = b.segs[-1]
-    dv = 1 if v.conv.kind == "i" else "a"
+    ep = max([r.endpoint for r in rules] + [-1]) + 1
+    tag = f"g{ep}"
+    var = Seg(conv=rng.choice([Conv("i"), Conv("i"), Conv("s"), Conv("i", mx=50)]), name="page")
+    mid = [Seg(lit=rng.choice(["page", "p", "1"]))] if rng.random() < 0.6 else []
+    if rng.random() < 0.3:
+        mid.insert(0, Seg(conv=Conv("s"), name="sec"))
+    dom = rng.choice([r.dom for r in rules]) if rules else Seg(lit="")
+    b = RuleSpec(idx=0, endpoint=ep, segs=(Seg(lit=tag), *mid, var), branch=rng.random() < 0.35,
+                 methods=rng.choice([None, None, ("GET",)]), dom=dom, strict=rng.choice([None, None, False]),
+                 merge=rng.choice([None, None, False]))
+    group = [b]
+    dv = 1 if var.conv.kind == "i" else "a"
     c = rng.random()
-    if c < 0.7:
-        head = b.segs[:-1]
-        if rng.random() < 0.5 and len(head) > 1:
-            head = head[:-1]
-        a = RuleSpec(idx=len(rules), endpoint=b.endpoint, segs=tuple(head), branch=rng.random() < 0.6 or not head,
-                     defaults=((v.name, dv),), methods=b.methods, dom=b.dom)
-        rules.append(a)
+    if c < 0.75:
+        head = (Seg(lit=tag), *[s_ for s_ in mid if s_.lit is None])
+        a = replace(b, segs=head, branch=rng.random() < 0.6, defaults=(("page", dv),))
+        group.append(a)
+        if rng.random() < 0.45:      # a second provider: the first defined one is the canonical URL
+            group.append(replace(a, segs=(Seg(lit=tag + "x"),) + tuple(head[1:])))
     if c > 0.5:
-        al = replace(b, idx=len(rules), segs=(Seg(lit=rng.choice(["old", "o"])),) + b.segs, alias=True)
-        rules.append(al)
+        group.append(replace(b, segs=(Seg(lit="old" + tag),) + b.segs, alias=True))
+    if rng.random() < 0.4:
+        # same endpoint, other arguments: no defaults apply to it
+        group.append(replace(b, segs=(Seg(lit=tag + "y"), Seg(conv=Conv("i"), name="other")), branch=rng.random() < 0.5))
+    rules += group
     rng.shuffle(rules)
     rules = [replace(r, idx=i) for i, r in enumerate(rules)]
     return replace(ms, rules=tuple(rules), redirect_defaults=rng.random() < 0.85)
@@ -135,6 +146,9 @@ def corpus_c12():
     out.append((MapSpec((allr, page, old)), ["/all/page/1", "/all/page/2", "/all", "/all/", "/old/1", "/old/2", "/all//page/1", "//all/page/1"],
                 ["GET"], app))
     out.append((MapSpec((page, old, allr), redirect_defaults=False), ["/all/page/1", "/old/2"], ["GET"], ad))
+    every = RuleSpec(idx=3, endpoint=0, segs=(L("every"),), branch=True, defaults=(("page", 1),))
+    out.append((MapSpec((allr, every, page)), ["/every/", "/all/", "/every", "/all/page/1"], ["GET"], ad))
+    out.append((MapSpec((every, page, allr)), ["/every/", "/all/", "/all/page/1"], ["GET"], app))
     pageb = replace(page, branch=True)
     out.append((MapSpec((allr, pageb)), ["/all/page/1", "/all/page/1/", "/all/page//1"], ["GET"], Adapter(script="/app/", query=(("a", "b c"),))))
     # per-rule slash settings sharing a prefix
@@ -266,10 +280,10 @@ def run(chk: Check) -> None:
     rng = chk.rng
     quick = chk.tier == "quick"
     lines, expect, meta = [], [], []
-    cases = list(corpus_c12())
-    n_plain = 420 if quick else 6000
-    n_build = 320 if quick else 4500
-    n_sub = 160 if quick else 2400
+    cases = list(c03.load_corpus("C12"))
+    n_plain = 600 if quick else 8500
+    n_build = 460 if quick else 6500
+    n_sub = 230 if quick else 3400
     for _ in range(n_plain):
         ms = gen_map(rng, nmax=4, per_rule=True)
         cases.append((ms, c12_paths(rng, ms, 7), [rng.choice(["GET", "GET", "GET", "POST", "HEAD"])], gen_adapter(rng, ms)))
